@@ -20,10 +20,13 @@ pub struct Case {
     /// 0 = issuance proof, 1 = issuance proof with trusted commitment, 2 = signature proof
     pub kind: u8,
     pub seed: u32,
+    /// attributes forced to small values (bit i set: attribute i is 0 or 1) - used by C19 only
+    #[serde(default)]
+    pub small_mask: u8,
 }
 
 pub fn strat(nmax: usize) -> impl Strategy<Value = Case> {
-    (any::<u16>(), 1usize..=nmax, 1u8..=31, 0u8..3, any::<u32>()).prop_map(|(key, n, hm, kind, seed)| Case { key, n, hidden_mask: (hm as usize % ((1 << n) - 1)) as u8 + 1, kind, seed })
+    (any::<u16>(), 1usize..=nmax, 1u8..=31, 0u8..3, any::<u32>()).prop_map(|(key, n, hm, kind, seed)| Case { key, n, hidden_mask: (hm as usize % ((1 << n) - 1)) as u8 + 1, kind, seed, small_mask: 0 })
 }
 
 /// public base pair (g, h) modulo n, with a label
@@ -71,7 +74,7 @@ where
     let hidden: Vec<usize> = (0..n).filter(|i| c.hidden_mask >> i & 1 == 1).collect();
     let mut st = (c.seed as u64) << 9 | 1;
     // high-entropy attributes only
-    let vals: Vec<Integer> = (0..n).map(|_| attr_random(&mut st)).collect();
+    let vals: Vec<Integer> = (0..n).map(|i| if c.small_mask >> i & 1 == 1 { Integer::from((i + (c.seed as usize)) % 2) } else { attr_random(&mut st) }).collect();
     let hidden_vals: Vec<(usize, Integer)> = hidden.iter().map(|&i| (i, vals[i].clone())).collect();
     let kind = if c.kind % 3 == 1 && sh.tp.is_none() { 0 } else { c.kind % 3 };
     if kind < 2 {
@@ -232,6 +235,32 @@ pub fn attack_recover_v(proof: &Value, pairs: &[BasePair], v_true: &Integer) -> 
     None
 }
 
+/// Attacker program 4: arithmetic relations between a candidate and the integer fields: a field that is
+/// the candidate itself, a multiple of it, or candidate * (another field) + small - responses that were
+/// not blinded at all confirm a guess without any exponentiation.  Returns (path, relation, candidate index).
+pub fn attack_arithmetic(proof: &Value, candidates: &[Integer]) -> Option<(String, String, usize)> {
+    let leaves = int_leaves(proof);
+    for (ci, cand) in candidates.iter().enumerate() {
+        if *cand < 2 {
+            continue;
+        }
+        for (p, s) in &leaves {
+            if *s == 0 {
+                continue;
+            }
+            if s == cand {
+                return Some((p.clone(), "field == candidate".into(), ci));
+            }
+            if s.is_divisible(cand) {
+                return Some((p.clone(), "candidate divides the field".into(), ci));
+            }
+            // field = t + candidate * c for two other fields t, c is too weak a test in general (t is a
+            // free variable); the unblinded special cases t = 0 and t = candidate are the two above
+        }
+    }
+    None
+}
+
 pub fn check_view(rep: &Report, ck: &str, c: &Case, v: &View) -> CheckResult {
     let cj = |d: Value| json!({"case": c, "kind": v.kind, "hidden": v.hidden, "detail": d});
     let mut st = (c.seed as u64) << 3 | 7;
@@ -274,7 +303,10 @@ pub fn check_view(rep: &Report, ck: &str, c: &Case, v: &View) -> CheckResult {
         let decoy = attr_random(&mut st);
         let flip = splitmix(&mut st) & 1 == 1;
         let cands = if flip { vec![decoy.clone(), truth.clone()] } else { vec![truth.clone(), decoy.clone()] };
-        let guess = attack_pairs(&v.proof, &v.pairs, &cands).map(|x| x.2).or_else(|| attack_all_leaves(&v.proof, &v.pairs, &cands).map(|x| x.3));
+        let guess = attack_pairs(&v.proof, &v.pairs, &cands)
+            .map(|x| x.2)
+            .or_else(|| attack_arithmetic(&v.proof, &cands).map(|x| x.2))
+            .or_else(|| attack_all_leaves(&v.proof, &v.pairs, &cands).map(|x| x.3));
         rep.eval(ck, 1);
         if let Some(g) = guess {
             let right = (g == 1) == flip;
@@ -306,8 +338,12 @@ fn self_test(sh: &Shared) -> Result<(), String> {
     if attack_pairs(&leaky, &pairs, &[decoy.clone(), m.clone()]).map(|x| x.2) != Some(1) {
         return Err("attack_pairs misses a planted opening".into());
     }
-    if attack_all_leaves(&leaky, &pairs, &[decoy, m]).map(|x| x.3) != Some(1) {
+    if attack_all_leaves(&leaky, &pairs, &[decoy.clone(), m.clone()]).map(|x| x.3) != Some(1) {
         return Err("attack_all_leaves misses a planted opening".into());
+    }
+    let unblinded = json!({"s": serde_json::to_value(&m * Integer::from(12345u32)).unwrap()});
+    if attack_arithmetic(&unblinded, &[decoy, m]).map(|x| x.2) != Some(1) {
+        return Err("attack_arithmetic misses a planted multiple".into());
     }
     Ok(())
 }
@@ -330,7 +366,7 @@ pub fn fixed_cases(ctx: &Ctx, nmax: usize) -> Vec<Case> {
                 if kind == 1 && k % 2 == 0 {
                     continue;
                 }
-                out.push(Case { key: (k * 7919) as u16, n, hidden_mask: mask, kind, seed: (ctx.seed as u32).wrapping_add(k) });
+                out.push(Case { key: (k * 7919) as u16, n, hidden_mask: mask, kind, seed: (ctx.seed as u32).wrapping_add(k), small_mask: 0 });
             }
         }
     }
@@ -374,7 +410,7 @@ pub fn run(ctx: &Ctx, rep: &Report) -> Meta {
     Meta {
         rule: "honest issuance proofs (with and without trusted-party commitment) and signature proofs for EVERY non-empty hidden set (n = 1..3 quick / 1..5 thorough) plus generated cases, high-entropy 256-bit attributes only; \
                attacker programs over serde_json::to_value(proof) and the public base pairs {(a_i, b), (g_i, h)}: (A) every (value, randomness)-shaped object tested as an opening of every secret the prover holds, \
-               (B) every integer leaf as value against every integer leaf as randomness, (C) recovery of the signature's v as V * g^(-rho) over all leaf pairs, (D) dictionary attack with the true hidden attribute and a decoy in seed-shuffled order; \
+               (B) every integer leaf as value against every integer leaf as randomness, (C) recovery of the signature's v as V * g^(-rho) over all leaf pairs, (D) dictionary attack with the true hidden attribute and a decoy in seed-shuffled order, by opening recomputation and by arithmetic relations (a field equal to or a multiple of the candidate); \
                oracle: no program succeeds; positive control: the programs find a planted opening; non-trivial = proof with >= 1 hidden attribute; evaluations = attacker-program runs"
             .into(),
         assumptions: vec!["only the direct recomputation attacks named by the property are decided; subtler leaks are not found".into(), "attributes are random 256-bit values, so an accidental equality has probability < 2^-200".into()],
